@@ -12,10 +12,31 @@ type HashingReaderWrapper struct {
 	Reader             *bufio.Reader
 	CalculateSignature bool
 	hash               hash.Hash
+	// number of bytes consumed by Read so far; a pointer, because the wrapper is passed by value
+	bytesRead *int64
+}
+
+// NewHashingReaderWrapper creates a wrapper which additionally counts the bytes consumed by Read
+func NewHashingReaderWrapper(reader *bufio.Reader) HashingReaderWrapper {
+	return HashingReaderWrapper{
+		Reader:    reader,
+		bytesRead: new(int64),
+	}
+}
+
+// BytesRead returns the number of bytes consumed by Read so far (peeked bytes do not count)
+func (t *HashingReaderWrapper) BytesRead() int64 {
+	if t.bytesRead == nil {
+		return 0
+	}
+	return *t.bytesRead
 }
 
 func (t *HashingReaderWrapper) Read(bytes []byte) (int, error) {
 	byteCount, err := t.Reader.Read(bytes)
+	if t.bytesRead != nil && byteCount > 0 {
+		*t.bytesRead += int64(byteCount)
+	}
 	if t.CalculateSignature == true && err == nil {
 		if byteCount == len(bytes) {
 			t.hash.Write(bytes)
